@@ -722,12 +722,31 @@ def main():
     parts = ["(* GENERATED by harness/gen_funs.py from the tickit sources -- do not edit *)",
              "From TV Require Import Base Model.PyLib Model.Wiring Model.Component Model.Sim.", "Open Scope Z_scope.", ""]
     notes = []
+    done = {}     # generated name -> text
+    failed = {}   # generated name -> why
     for spec in SPECS:
         try:
-            parts.append(translate(spec))
-            notes.append(f"(* section {spec['section']}: translated *)")
+            done[spec["name"]] = (spec, translate(spec))
         except (Unrecognised, SyntaxError, OSError) as e:
-            notes.append(f"(* section {spec['section']}: NOT translated -- {str(e)[:200]} *)")
+            failed[spec["name"]] = str(e)[:200]
+    # a definition that calls a function which was not translated is not emitted either (the file must compile: what is
+    # lost is the tie of the functions concerned, not that of every function)
+    import re
+    changed = True
+    while changed:
+        changed = False
+        for name, (spec, text) in list(done.items()):
+            missing = sorted(set(re.findall(r"\bgen_[A-Za-z0-9_]+", text)) - set(done))
+            if missing:
+                failed[name] = "calls " + ", ".join(missing) + " which was not translated"
+                del done[name]
+                changed = True
+    for spec in SPECS:
+        if spec["name"] in done:
+            parts.append(done[spec["name"]][1])
+            notes.append(f"(* section {spec['section']}: translated *)")
+        else:
+            notes.append(f"(* section {spec['section']}: NOT translated -- {failed[spec['name']]} *)")
     text = "\n".join(parts[:3] + notes + parts[3:]) + "\n"
     OUT.parent.mkdir(parents=True, exist_ok=True)
     if not OUT.exists() or OUT.read_text() != text:
